@@ -35,6 +35,20 @@ def check(ctx: Ctx) -> str:
             # normal form: negated tests are made positive, single-use locals inlined
             pp = [ast.unparse(k.value) for k in cs[0].keywords if k.arg == "postprocess"]
             ctx.check(pp == ["None if case_sensitive else ignore_case"], f"{fname}:case", f"filters:{fname}", "case post-processing", f"{fname} must compare case-insensitively exactly when case_sensitive is false (postprocess={pp})", fi.loc(cs[0]))
+    # a dotted path applies the default at *every* step: an intermediate attribute that is
+    # missing yields the default instead of subscripting an Undefined (which raises)
+    mg = repo.func("filters:make_attrgetter")
+    loops_ = [l_ for l_ in ast.walk(mg.node) if isinstance(l_, ast.For) and isinstance(l_.target, ast.Name) and any(astq.callee(c) == "environment.getitem" for c in astq.calls(l_))]
+    ctx.need(len(loops_) == 1, "make_attrgetter: the loop over the path parts was not found")
+    subst = [a for a in ast.walk(loops_[0]) if isinstance(a, ast.Assign) and ast.unparse(a.value) == "default" and isinstance(a.targets[0], ast.Name)]
+    ok_d = len(subst) == 1
+    if ok_d:
+        at_ = astq.guard_atoms(loops_[0], subst[0])
+        itv = subst[0].targets[0].id  # type: ignore[attr-defined]
+        ok_d = ("default is None", False) in at_ and (f"isinstance({itv}, Undefined)", True) in at_ and len(at_) == 2
+    ctx.check(ok_d, "make_attrgetter:default-per-part", "filters:make_attrgetter", "default not substituted after each part of the path",
+              "make_attrgetter must replace an undefined intermediate value by `default` inside the loop over the dotted path (under exactly `default is not None and isinstance(item, Undefined)`): applied only after the loop, `map(attribute='address.city', default='?')` raises UndefinedError for an item without `address` instead of yielding the default",
+              mg.loc(loops_[0]))
     ic = repo.func("filters:ignore_case")
     s = ic.ntext
     ic_rets = {ast.unparse(r_.value): astq.guard_atoms(ic.nnode, r_) for r_ in astq.returns(ic.nnode) if r_.value is not None}
